@@ -104,7 +104,8 @@ def module_state(repo):
         mut.discard('__all__')
         writes = []
         for name, fd in mod.functions.items():
-            local = {a.arg for a in fd.args.args} | {t.id for t in ast.walk(fd) if isinstance(t, ast.Name) and isinstance(t.ctx, ast.Store)}
+            glob = {g for n in ast.walk(fd) if isinstance(n, ast.Global) for g in n.names}
+            local = ({a.arg for a in fd.args.args} | {t.id for t in ast.walk(fd) if isinstance(t, ast.Name) and isinstance(t.ctx, ast.Store)}) - glob
             for n in ast.walk(fd):
                 tgt = None
                 if isinstance(n, (ast.Subscript, ast.Attribute)) and isinstance(n.ctx, ast.Store):
@@ -113,6 +114,11 @@ def module_state(repo):
                     tgt = n.func.value
                 if isinstance(tgt, ast.Name) and tgt.id in mut and tgt.id not in local:
                     writes.append("%s writes module-level %s at line %d" % (name, tgt.id, n.lineno))
+            # rebinding a module-level name from inside a function (`global X; X = ...`)
+            declared = {g for n in ast.walk(fd) if isinstance(n, ast.Global) for g in n.names}
+            for n in ast.walk(fd):
+                if isinstance(n, ast.Name) and isinstance(n.ctx, ast.Store) and n.id in declared:
+                    writes.append("%s rebinds module-level %s at line %d" % (name, n.id, n.lineno))
         res.append(("%s:no-module-level-state-written" % modq.replace(PKG + '.', ''), not writes, '; '.join(writes) or "none"))
     return res
 
@@ -160,6 +166,10 @@ def pool_api(repo):
             if isinstance(n, ast.Call) and isinstance(n.func, ast.Attribute):
                 if n.func.attr in ('imap_unordered', 'imap', 'map_async', 'starmap_async', 'as_completed', 'apply'):
                     bad.append("%s.%s uses %s at line %d" % (modq, name, n.func.attr, n.lineno))
+                if n.func.attr in ('ready', 'successful', 'wait') and not n.args[1:] and not n.keywords:
+                    # AsyncResult.ready()/successful()/wait(t): the answer depends on how far the workers have got
+                    bad.append("%s.%s queries task completion state with .%s() at line %d (timing-dependent control flow)"
+                               % (modq, name, n.func.attr, n.lineno))
                 if n.func.attr == 'apply_async':
                     if any(k.arg in ('callback', 'error_callback') for k in n.keywords) or len(n.args) > 3:
                         bad.append("%s.%s passes a callback to apply_async at line %d" % (modq, name, n.lineno))
@@ -216,6 +226,7 @@ def prange_race_freedom(repo):
     lp = loops[0]
     v = lp.target.id
     bad = []
+    shared_writes = []
     assigned_inside = set()
     for n in ast.walk(lp):
         if isinstance(n, ast.For) and n is not lp and isinstance(n.target, ast.Name):
@@ -233,6 +244,25 @@ def prange_race_freedom(repo):
                     bad.append("store to %s at line %d" % (type(t).__name__, n.lineno))
         if isinstance(n, ast.AugAssign):
             bad.append("augmented assignment at line %d (cross-iteration accumulation)" % n.lineno)
+        if isinstance(n, ast.Expr) and isinstance(n.value, ast.Call):
+            # a call whose value is discarded is evaluated for its side effect; threads share everything allocated outside the loop
+            bad.append("call evaluated for its side effect at line %d (%s)" % (n.lineno, dotted(mod, n.value.func) or ast.dump(n.value.func)[:40]))
+        if isinstance(n, ast.Call):
+            outs = [k.value for k in n.keywords if k.arg == 'out']
+            d = dotted(mod, n.func) or ''
+            if d.startswith('numpy.') and len(n.args) >= 3:
+                outs.append(n.args[2])      # ufunc(a, b, out)
+            if isinstance(n.func, ast.Attribute) and n.func.attr in MUTATORS:
+                outs.append(n.func.value)
+            for o in outs:
+                base = o
+                while isinstance(base, (ast.Subscript, ast.Attribute)):
+                    base = base.value
+                if isinstance(base, ast.Name):
+                    shared_writes.append((base.id, n.lineno))
+    for name, line in shared_writes:
+        if name not in assigned_inside:
+            bad.append("buffer %s allocated outside the parallel loop is written by every iteration at line %d" % (name, line))
     # values read inside the loop must not be written inside it, other than loop-local names and result[v, ...]
     res.append(("parallel-loop:iterations-write-disjoint-cells-and-share-nothing", not bad, '; '.join(bad) or
                 "only store: result[%s, ...]" % v))
